@@ -228,7 +228,7 @@ func runLoop(w *out.W, tier string) {
 	// dangling references: {parent dropped, parent never existed, referenced column dropped} x {named, unnamed} x {1, 2 children}
 	nd := 3
 	if tier == "thorough" {
-		nd = 40
+		nd = 25
 	}
 	for v := 0; v < nd; v++ {
 		for gi, d := range danglingGrid() {
